@@ -207,7 +207,7 @@ func c18Property(k *c18Case, o c18Obs) string {
 	}
 	if ok {
 		if o.exit != 0 {
-			return fmt.Sprintf("every listed file is readable but the tool exits with status %d: %s", o.exit, firstLine(o.stderr))
+			return fmt.Sprintf("every listed file is readable but the tool exits with status %d: %s", o.exit, c18PanicLine(o.stderr))
 		}
 		if !o.hasReadme {
 			return "exit status 0 but README.md was not written"
@@ -308,9 +308,13 @@ func c18Check(c *Ctx, k *c18Case, o c18Obs, idx int) {
 	}
 	bad := c18Property(k, o)
 	if bad != "" {
-		// shrink the entry list while the property keeps failing on the real tool
+		// shrink the entry list while the property keeps failing on the real tool (first violation only:
+		// every probe is a process)
 		small := *k
 		n := 0
+		if len(c.Res.Violations) > 0 {
+			n = 1000
+		}
 		small.Entries = Ddmin(k.Entries, func(es []c18Entry) bool {
 			n++
 			if n > 40 {
@@ -375,7 +379,7 @@ func runC18(c *Ctx) {
 			&c18Case{Entries: []c18Entry{{Name: "a.fo"}}, Files: map[string]string{"a.fo": ""}, TrailingNL: true},
 			&c18Case{Entries: []c18Entry{{Name: "a.fo", HasTitle: true, Title: "T"}, {Name: "missing.fo", HasTitle: true, Title: "M"}}, Files: map[string]string{"a.fo": "x"}, TrailingNL: true},
 		)
-		for i, n := 0, c.Pick(260, 20000); i < n; i++ {
+		for i, n := 0, c.Pick(180, 20000); i < n; i++ {
 			cases = append(cases, c18Gen(rng))
 		}
 	}
